@@ -394,6 +394,13 @@ def check(run):
             has = lambda r: any(short_func(s_["func"]) in newf for s_ in r["sites"])
             rps = sorted(rps, key=lambda pr: -(has(pr[0]) + has(pr[1])))
         ra, rb = rps[0]
+        # prefer a race report that runs through one of the new functions
+        if newf and (e1, e2, field) in confirmed:
+            for at in attributed:
+                if edge(at["entries"][0], at["entries"][1], at["field"]) == (e1, e2, field) and \
+                        any("." + nf.split(".")[-1] + "()" in at["raw"] for nf in newf):
+                    confirmed[(e1, e2, field)] = at["raw"]
+                    break
         case = {"entry": e1, "against": e2, "field": field, "locks": locks, "kinds": kinds, "row_pairs": len(rps), "a": side(ra), "b": side(rb),
                 "seed": run.seed * 1000, "iter": n, "race_report": confirmed.get((e1, e2, field))}
         def desc(r):
